@@ -563,7 +563,11 @@ fn check_sets(rep: &Reporter, ctx: &Ctx, ia: usize, ib: usize, ops: &[OpSpec], o
 /// Annotation receiver: `ResultItem<Annotation>::test` must agree with the test on the annotations' selection sets.
 fn check_annotations(rep: &Reporter, text: &str, sets: &[Vec<R>], ops: &[OpSpec]) -> u64 {
     let mut store = build_store(text);
-    for (i, s) in sets.iter().enumerate() {
+    // longest ranges first, and every set twice (a<i>, c<i>): a range is then looked up again after a longer range with the same
+    // begin has been stored, and equal ranges meet as targets of two different annotations
+    let order: Vec<(usize, &str)> = (0..sets.len()).rev().map(|i| (i, "a")).chain((0..sets.len()).rev().map(|i| (i, "c"))).collect();
+    for (i, prefix) in order {
+        let s = &sets[i];
         let target = if s.len() == 1 {
             SelectorBuilder::textselector("r", Offset::simple(s[0].0, s[0].1))
         } else {
@@ -574,12 +578,15 @@ fn check_annotations(rep: &Reporter, text: &str, sets: &[Vec<R>], ops: &[OpSpec]
             )
         };
         store
-            .annotate(AnnotationBuilder::new().with_id(format!("a{}", i)).with_target(target))
+            .annotate(AnnotationBuilder::new().with_id(format!("{}{}", prefix, i)).with_target(target))
             .expect("annotate");
     }
     let store = &store;
     let anns: Vec<ResultItem<Annotation>> = (0..sets.len())
         .map(|i| store.annotation(format!("a{}", i).as_str()).unwrap())
+        .collect();
+    let copies: Vec<ResultItem<Annotation>> = (0..sets.len())
+        .map(|i| store.annotation(format!("c{}", i).as_str()).unwrap())
         .collect();
     let rsets: Vec<ResultTextSelectionSet> = sets
         .iter()
@@ -593,7 +600,18 @@ fn check_annotations(rep: &Reporter, text: &str, sets: &[Vec<R>], ops: &[OpSpec]
                 let o = op.to_op();
                 let got = catch(|| anns[ia].test(&o, &anns[ib])).map_err(|m| msg_class(&m));
                 let want = eval_setset(&rsets[ia], &rsets[ib], op);
-                cnt += 2;
+                cnt += 3;
+                // the same ranges as targets of another annotation
+                let got2 = catch(|| anns[ia].test(&o, &copies[ib])).map_err(|m| msg_class(&m));
+                if got2 != want && got == want {
+                    let (a, b) = (&sets[ia], &sets[ib]);
+                    rep.fail(
+                        &format!("ann|{}|second-annotation-on-the-same-ranges-differs:got={}|sizes={}", op.name(), fmt_res(&got2), sizes(a, b)),
+                        ((ia * sets.len() + ib) * 1000 + i) as u64,
+                        || format!("text={:?} A={:?} B={:?} op={}: annotation a.test(c) = {} where c is a second annotation on the ranges B, but the set test = {}", text, a, b, op.name(), fmt_res(&got2), fmt_res(&want)),
+                        || case_json("ann", text, a, b, op),
+                    );
+                }
                 if got != want {
                     let (a, b) = (&sets[ia], &sets[ib]);
                     rep.fail(
